@@ -142,6 +142,7 @@ def candidates(s, kind, unit):
         if deck:
             out.append((tuple(deck[:1]),))
             out.append((tuple(deck[:3]),))
+            out.append((tuple(deck[:1]) * 2,))
         j = s.hole_dealee_index
         if j is not None and not s.hole_dealing_statuses[j][0]:
             out.append(('??',))       # unknown cards only face down
@@ -157,6 +158,8 @@ def candidates(s, kind, unit):
             out.append((tuple(deck[:1]),))
             out.append((tuple(deck[:3]),))
             out.append((tuple(deck[:4]),))
+            out.append((tuple(deck[:1]) * 3,))
+            out.append((tuple(deck[:2]) + tuple(deck[:1]),))
         if foreign:
             out.append((tuple(foreign),))
         return out
@@ -168,6 +171,10 @@ def candidates(s, kind, unit):
             out.append((tuple(hole[:1]),))
             out.append((tuple(hole),))
             out.append((tuple(hole[1:3]),))
+            if hole:
+                # the same held card named twice (not a sub-multiset)
+                out.append((tuple(hole[:1]) * 2,))
+                out.append((tuple(hole[:2]) + tuple(hole[:1]),))
         if deck:
             out.append((tuple(deck[:1]),))
         others = [c for j in idx if j != i for c in s.hole_cards[j] if c]
@@ -190,6 +197,7 @@ def candidates(s, kind, unit):
             if hole:
                 out.append((hole, i))
                 out.append((hole[:1], i))
+                out.append((hole[:1] * len(hole), i))
                 known = tuple(c for c in hole if c)
                 if known and len(known) != len(hole):
                     out.append((known, i))
@@ -415,6 +423,14 @@ def c08_case(draw, tier):
         # hands reaching a showdown are known), so showdown is not automated
         case['config']['autos'] &= ~(1 << 7)
     return case
+
+
+# coverage-guided campaign (pkv/fuzz.py): same strategy and oracle driven by
+# libFuzzer through Hypothesis' fuzz_one_input; pokerkit instrumented
+FUZZ = dict(
+    quick=dict(procs=8, runs=120, wall=60),
+    thorough=dict(procs=16, runs=6000, wall=900),
+)
 
 
 def budget(tier):
